@@ -32,7 +32,7 @@ CHECKS = {
             TB + "; each path is one concrete type (str/ast-shaped data)", "DESIGN.md §5 C31", "E1"),
     "C08": ("translation_validation",
             "real check() verdict per program (concrete) vs. a definedness / type path oracle run by CrossHair/z3 over symbolic branch-decision vectors (one vector for definedness, two for type conflicts), with solver-produced witnesses for every rejection",
-            "Restricted: the solver ranges over paths and pairs of paths; the real checker runs concretely on a generated corpus (70 quick / 1200 thorough + 13 fixed; assignments of int/bool/float/tuple and copies, generic reads, "
+            "Restricted: the solver ranges over paths and pairs of paths; the real checker runs concretely on a generated corpus (70 quick / 1200 thorough + 20 fixed; assignments of int/bool/float/tuple and copies, generic reads, "
             "if/else, while, for, break/continue/return). Accepted => no path reaches an unassigned read and no two paths reach one read site with different types; rejected as not-defined / different-types => the solver exhibits that path / pair (replayed).",
             TB + "; lib/e8.py oracle and generator; every syntactic path feasible", "DESIGN.md §5 C08", "E4"),
     "C06": ("translation_validation",
